@@ -16,7 +16,7 @@ import sys
 
 from hypothesis import strategies as st
 
-from ..core import fmt_exc, innermost_pkg_frame, run_given, short
+from ..core import fmt_exc, innermost_pkg_frame, run_given, with_spellings, short
 from ..gen import fixtures
 from ..gen import parsers as P
 from ..gen import types as G
@@ -473,7 +473,7 @@ def run_shard(spec, ctx):
     from . import _kinds
 
     main = _rt.case_strategy(spec["depth"], special_share=1000)
-    run_given(ctx, st.integers(0, 5).flatmap(lambda i: _kinds.case_strategy() if i == 0 else main), body(ctx), spec["n"])
+    run_given(ctx, with_spellings(st.integers(0, 5).flatmap(lambda i: _kinds.case_strategy() if i == 0 else main)), body(ctx), spec["n"])
 
 
 def health(tier, evaluations, nontrivial, classes):
